@@ -246,7 +246,7 @@ let dispatch (f : string) (args : sx list) : sx =
         | _ -> failwith "odoc" in
       let top = (match t with
         | L [root; th; L ex] ->
-            { t_root = odoc_of root; t_thumb = opt_of_sx str_of_sx th;
+            { t_root = odoc_of root; t_thumb = opt_of_sx (function L [b; m] -> (str_of_sx b, str_of_sx m) | _ -> failwith "thumb") th;
               t_extras = SL.map (function L [n; m; c] -> ((str_of_sx n, str_of_sx m), opt_of_sx str_of_sx c) | _ -> failwith "extra") ex }
         | _ -> failwith "topdoc") in
       let (es, man) = Package.save_m top in
@@ -286,6 +286,11 @@ let dispatch (f : string) (args : sx list) : sx =
       let d = LoadInst.i_load_doc (str_of_sx mime) (part se) (part me) (part co) (part st) in
       L [sx_of_str d.d_mime; sx_of_node d.d_meta; sx_of_node d.d_scripts; sx_of_node d.d_ffd; sx_of_node d.d_settings;
          sx_of_node d.d_styles; sx_of_node d.d_auto; sx_of_node d.d_master; sx_of_node d.d_body]
+  | "cv_batch", [f; j; L vals] ->
+      let f = opt_of_sx n_of_sx f and j = n_of_sx j in
+      L (SL.map (fun v -> let s = str_of_sx v in
+                   L [(match ConvInst.i_convert f s with Convert.COk r -> L [A "Ok"; sx_of_str r] | Convert.CValueError -> A "ValueError");
+                      A (if ConvInst.i_valid j s then "1" else "0")]) vals)
   | "ls_load", [L es] ->
       let elem_of_sx = function
         | L [d; L refs] -> { LoadStyles.le_def = opt_of_sx str_of_sx d;
